@@ -198,6 +198,10 @@ theorem inv_step (fx : Bool) (cap : Nat) (s s' : St) (hinv : Inv fx s) (h : Step
     refine ⟨?_, ?_, hw, hh⟩
     · exact forall_modify _ _ _ hc (fun c hc' => cinv_to_err (hc c (List.mem_of_getElem? hc')) 1)
     · exact unique_modify_same _ _ _ (fun _ => rfl) hu
+  | giveUp i c hi hw' hctx =>
+    refine ⟨?_, ?_, hw, hh⟩
+    · exact forall_modify _ _ _ hc (fun c hc' => cinv_to_err (hc c (List.mem_of_getElem? hc')) 6)
+    · exact unique_modify_same _ _ _ (fun _ => rfl) hu
   | sever h => exact ⟨hc, hu, hw, hh⟩
 
 theorem inv_reach (fx : Bool) (cap : Nat) (s0 s : St) (h0 : Inv fx s0) (h : Reach fx cap s0 s) :
